@@ -1219,7 +1219,7 @@ func confirmSeed(cs uint64, cfg Config, timeout time.Duration) (sig, detail stri
 // It runs the case generator in a child process in "record only" mode where the
 // world supports it; otherwise it returns the first draws of the seed.
 func seedTape(cs uint64, cfg Config) []uint32 {
-	return tape.RawPrefix(cs, 1<<15)
+	return tape.RawPrefix(cs, 1<<19) // (a scaled module set with styled rendering draws more than 100 000 values)
 }
 
 // unsimulatedSources compares simrewrite's static list of constructs without a
